@@ -246,6 +246,15 @@ def signature(inv, scn, detail, case):
 
 
 def run(ctx):
+    _run(ctx, None)
+
+
+def replay(ctx, obj):
+    """./check C13 --replay evidence/replays/C13/<file>.json: run that scenario again (workflow files as recorded)."""
+    _run(ctx, obj["scenario"])
+
+
+def _run(ctx, replay_scn):
     quick = ctx.tier == "quick"
     ctx.assumptions += [
         "Mesos master, agents and executors are simulated; FairMQ itself is not run: the property is about what each side is told "
@@ -257,38 +266,45 @@ def run(ctx):
                 "aggregator-role / root level, addressing, transport, alias, explicit targets, path/alias/explicit/dangling connect "
                 "targets); core catalogue exhaustive + seeded TLC simulation of the full catalogue; non-trivial = every case "
                 "(each configures or must be rejected)")
-    # 1. exhaustive check of the model's consistency invariants over the mid/large catalogue
-    ctx.model_check("ChannelsGen", None, cfg_text=cfg_gen(ctx, "mid" if quick else "large", False), timeout=1500)
-    # 2. cases: the core catalogue (exhaustive) + a seeded sample of the full catalogue
-    r = ctx.tlc("ChannelsGen", None, workers=1, cfg_text=cfg_gen(ctx, "core", True))
-    if not r.no_error:
-        ctx.save_debug(r, "gen_core.txt")
-        raise vlib.Inconclusive("core catalogue: TLC did not finish cleanly: " + vlib.tail(r.out))
-    core = cases_of(ctx, r, "core")
-    ctx.states += r.distinct
-    ctx.transitions += r.generated
-    nsim = 260 if quick else 4200
-    rs = ctx.tlc("ChannelsGen", None, workers=1, cfg_text=cfg_gen(ctx, "full", True), sim="num=%d" % nsim,
-                 extra=["-depth", "7", "-seed", str(ctx.seed)], timeout=900)
-    if rs.violated:
-        ctx.save_debug(rs, "gen_sim.txt")
-        raise vlib.Inconclusive("model inconsistency on a sampled case (%s): %s" % (rs.violated, vlib.tail(rs.out, 30)))
-    sampled = cases_of(ctx, rs, "sample")
-    seen = set()
     scenarios = []
     meta = {}
-    for origin, lst in (("core", core), ("sample", sampled)):
-        for c in lst:
-            key = json.dumps(c["case"], sort_keys=True)
-            if key in seen:
-                continue
-            seen.add(key)
-            sid = len(scenarios) + 1
-            scenarios.append(scenario(sid, c["case"], c["vocab"], origin))
-            meta[sid] = c
-            ctx.count_case(key)
+    if replay_scn is not None:
+        sc = dict(replay_scn)
+        sc["origin"] = "replay"
+        scenarios.append(sc)
+        meta[sc["id"]] = {"pred": []}
+        ctx.count_case(json.dumps(sc["model"], sort_keys=True))
+    else:
+        # 1. exhaustive check of the model's consistency invariants over the mid/large catalogue
+        ctx.model_check("ChannelsGen", None, cfg_text=cfg_gen(ctx, "mid" if quick else "large", False), timeout=1500)
+        # 2. cases: the core catalogue (exhaustive) + a seeded sample of the full catalogue
+        r = ctx.tlc("ChannelsGen", None, workers=1, cfg_text=cfg_gen(ctx, "core", True))
+        if not r.no_error:
+            ctx.save_debug(r, "gen_core.txt")
+            raise vlib.Inconclusive("core catalogue: TLC did not finish cleanly: " + vlib.tail(r.out))
+        core = cases_of(ctx, r, "core")
+        ctx.states += r.distinct
+        ctx.transitions += r.generated
+        nsim = 260 if quick else 4200
+        rs = ctx.tlc("ChannelsGen", None, workers=1, cfg_text=cfg_gen(ctx, "full", True), sim="num=%d" % nsim,
+                     extra=["-depth", "7", "-seed", str(ctx.seed)], timeout=900)
+        if rs.violated:
+            ctx.save_debug(rs, "gen_sim.txt")
+            raise vlib.Inconclusive("model inconsistency on a sampled case (%s): %s" % (rs.violated, vlib.tail(rs.out, 30)))
+        sampled = cases_of(ctx, rs, "sample")
+        seen = set()
+        for origin, lst in (("core", core), ("sample", sampled)):
+            for c in lst:
+                key = json.dumps(c["case"], sort_keys=True)
+                if key in seen:
+                    continue
+                seen.add(key)
+                sid = len(scenarios) + 1
+                scenarios.append(scenario(sid, c["case"], c["vocab"], origin))
+                meta[sid] = c
+                ctx.count_case(key)
     ncore = sum(1 for s in scenarios if s["origin"] == "core")
-    ctx.log("cases: core %d, sampled %d (distinct new %d)" % (len(core), len(sampled), len(scenarios) - ncore))
+    ctx.log("scenarios: %d (core catalogue %d)" % (len(scenarios), ncore))
     ctx.exhaustive = False
     ctx.extra["cases_core"] = ncore
     ctx.extra["cases_sampled"] = len(scenarios) - ncore
